@@ -334,3 +334,37 @@ Definition serve_stall (ignore_drain_error : bool) (st : state) (env : nat -> en
   read_loop_stall ignore_drain_error (S (length before)) st env O before after.
 
 End WithLimit.
+
+(* ------------------------------------------------------------------ stages of a session, and a refused close
+   (round 10).  A client that negotiates versions is not "ready" while its GetSupportedVersion / SetProtocolVersion
+   exchange is going on; the read loop runs all the same.  [neg i]: the client is still negotiating when the i-th header
+   is read (an arbitrary placement of the stages over the stream: environment input, like the registrations).
+   passToHandler as found does not look at the stage at all: that is [gated = false].  [gated = true] is the variant in
+   which user handlers (type-specific or default) are eligible only once the client is ready — while negotiating the
+   loop dispatches with [gate_cfg cfg]: nobody is a handler, awaiting callers are still served.
+
+   [stop_at_close = true]: the variant in which the loop stops reading once it has dispatched the
+   CloseConnectionResponse that answers a CloseConnection this client sent (and waits for the client to be closed),
+   whatever the response's status.  As found ([false]) the loop reads on: a reader that REFUSES the close keeps the
+   connection, and what it sends afterwards is dispatched like anything else; only the way a later EOF is reported
+   changes (EndWaitClose). *)
+Definition gate_cfg (cfg : config) : config := mkConfig (fun _ => false) false (never_reply cfg).
+
+Fixpoint read_loop_staged (gated stop_at_close : bool) (maxbuf : N) (cfg : config) (neg : nat -> bool)
+         (fuel : nat) (st : state) (env : nat -> env_step) (i : nat) (bs : list byte) : result :=
+  match fuel with
+  | O => mkResult [] EndOutOfFuel bs
+  | S fuel' =>
+      match read_iter maxbuf (if gated && neg i then gate_cfg cfg else cfg) st (env i) bs with
+      | ItNext d st' rest =>
+          if stop_at_close && (h_typ (d_hdr d) =? MsgCloseConnectionResponse) && e_close_sent (env i)
+          then mkResult [d] EndWaitClose rest
+          else cons_log d (read_loop_staged gated stop_at_close maxbuf cfg neg fuel' st' env (S i) rest)
+      | ItLast d => mkResult [d] EndShortDiscard []
+      | ItEnd e rest => mkResult [] e rest
+      end
+  end.
+
+Definition serve_staged (gated stop_at_close : bool) (maxbuf : N) (cfg : config) (neg : nat -> bool)
+           (st : state) (env : nat -> env_step) (bs : list byte) : result :=
+  read_loop_staged gated stop_at_close maxbuf cfg neg (S (length bs)) st env O bs.
